@@ -633,8 +633,14 @@ class DiscoveryComputation(MessagePassingComputation):
 
     def _on_replica_publish(self, _, msg: PublishReplicaMessage):
         if msg.publish:
-            self.discovery.register_replica(msg.replica, msg.agent,
-                                            publish=False)
+            try:
+                self.discovery.register_replica(msg.replica, msg.agent,
+                                                publish=False)
+            except UnknownComputation:
+                # The computation has been un-registered while this
+                # notification was on its way: nothing to record.
+                self.logger.warning('Ignoring replica of unknown computation '
+                                    '%s on %s', msg.replica, msg.agent)
         else:
             self.discovery.unregister_replica(msg.replica, msg.agent,
                                               publish=False)
